@@ -138,6 +138,29 @@ def gen_desc(rng, passive=True):
     d["loads"] = [{"bus": i, "p": rng.randint(0, 20) / 8, "q": rng.randint(-2, 8) / 8} for i in range(1, nmv + 1) if rng.random() < 0.8]
     d["sgens"] = [{"bus": rng.randint(1, nmv), "p": rng.randint(1, 12) / 8, "q": 0.0}] if rng.random() < 0.3 else []
     d["shunts"] = [{"bus": rng.randint(1, nmv), "p": 0.0625, "q": rng.choice([-0.5, 0.25])}] if rng.random() < 0.3 else []
+    # ---- bus-side variety that matters for the global balance (C03): PV gens (also at the slack bus), shunts / wards directly
+    # at the slack bus (bus 0), and "single slack, purely resistive shunts" nets (the guard of the numba single-slack pfsoln)
+    d["gens"] = []
+    if rng.random() < 0.35:
+        for _ in range(rng.randint(1, 2)):
+            b = 0 if rng.random() < 0.5 else rng.randint(1, nmv)
+            d["gens"].append({"bus": b, "p": rng.randint(2, 16) / 8, "vm": d["vm"] if b == 0 else [1.0, 1.01][b % 2]})   # one setpoint per bus
+    if rng.random() < 0.3:
+        d["shunts"].append({"bus": 0, "p": rng.choice([0.125, 0.5]), "q": rng.choice([0.0, -0.25])})
+    if rng.random() < 0.2:
+        d["ward"] = d.get("ward", []) + [{"bus": 0, "ps": 0.125, "qs": 0.0, "pz": rng.choice([0.25, 0.5]), "qz": rng.choice([0.0, 0.125])}]
+    if rng.random() < 0.25:
+        d["gens"], d["xward"] = [], []
+        for s_ in d["shunts"]:
+            s_["q"] = 0.0
+        for w_ in d.get("ward", []):
+            w_["qz"] = 0.0
+        if not d["shunts"]:
+            d["shunts"].append({"bus": rng.randint(0, nmv), "p": rng.choice([0.0625, 0.25]), "q": 0.0})
+        for w3 in d["t3"]:
+            if w3["loss"] == "star":
+                w3["loss"] = "hv"
+        d["single_slack_resistive"] = True
     return d
 
 
@@ -145,6 +168,7 @@ def build(d):
     net = empty_net(d["sn_mva"], d["f_hz"])
     hv = pp.create_bus(net, 110.0)
     mv = {i: pp.create_bus(net, 20.0) for i in range(1, d["nmv"] + 1)}
+    mv[0] = hv                                  # bus 0 in a description = the 110 kV slack bus
     pp.create_ext_grid(net, hv, vm_pu=d["vm"], va_degree=d["va"])
     for l in d["lines"]:
         kw = {}
@@ -206,13 +230,15 @@ def build(d):
         pp.create_sgen(net, mv[g["bus"]], p_mw=g["p"], q_mvar=g["q"])
     for s in d["shunts"]:
         pp.create_shunt(net, mv[s["bus"]], q_mvar=s["q"], p_mw=s["p"])
+    for g_ in d.get("gens", []):
+        pp.create_gen(net, mv[g_["bus"]], p_mw=g_["p"], vm_pu=g_["vm"])
     return net
 
 
-def run_ac(net, d, **kw):
+def run_ac(net, d, numba=False, **kw):
     o = d["opt"]
     pp.runpp(net, calculate_voltage_angles=o["cva"], trafo_model=o["trafo_model"], trafo_loading=o["trafo_loading"],
-             consider_line_temperature=o["temp"], switch_rx_ratio=o["rx"], numba=False, lightsim2grid=False,
+             consider_line_temperature=o["temp"], switch_rx_ratio=o["rx"], numba=numba, lightsim2grid=False,
              tolerance_mva=1e-9, max_iteration=30, trafo3w_losses=(d["t3"][0]["loss"] if d["t3"] else "hv"), **kw)
 
 
